@@ -413,6 +413,27 @@ type abandon struct{ why, detail string }
 
 func (c *caseRun) giveUp(why, detail string) { panic(abandon{why, detail}) }
 
+// serving reports whether the monitor at addr answers an RPC: only then is its accept loop known to
+// be running (a successful TCP connect only proves that the kernel queues connections).
+func serving(addr string) bool {
+	conn, err := net.DialTimeout("tcp", addr, time.Second)
+	if err != nil {
+		return false
+	}
+	cl := rpc.NewClient(conn)
+	defer cl.Close()
+	var st resources.ArchetypeState
+	arg := tla.MakeString("c19-probe")
+	call := cl.Go("MonitorRPCReceiver.IsAlive", &arg, &st, make(chan *rpc.Call, 1))
+	select {
+	case <-call.Done:
+		_, isServerErr := call.Error.(rpc.ServerError)
+		return call.Error == nil || isServerErr
+	case <-time.After(2 * time.Second):
+		return false
+	}
+}
+
 // goid returns the id of the calling goroutine ("goroutine 12 [running]:" -> "12").
 func goid() string {
 	buf := make([]byte, 64)
@@ -593,9 +614,7 @@ func (c *caseRun) monUp() {
 				continue
 			default:
 			}
-			conn, err := net.DialTimeout("tcp", c.monAddr, time.Second)
-			if err == nil {
-				conn.Close()
+			if serving(c.monAddr) {
 				ok = true
 				break
 			}
@@ -1022,8 +1041,7 @@ func closeRaceChild(rounds int) {
 		go func() { done <- mon.ListenAndServe() }()
 		up := false
 		for i := 0; i < 5000 && !up; i++ {
-			if conn, err := net.DialTimeout("tcp", addr, time.Second); err == nil {
-				conn.Close()
+			if serving(addr) {
 				up = true
 			} else {
 				time.Sleep(time.Millisecond)
